@@ -22,6 +22,7 @@ Lemma gen_ctors_eq :
 Proof. repeat split; reflexivity. Qed.
 
 
+
 (* ================================================================== invariant *)
 
 Notation code := CondProg.code.
@@ -277,6 +278,83 @@ Proof.
   apply li_upd; auto. apply (i_li g HI).
 Qed.
 
+
+Lemma inv_upd2 : forall g i t t' ss',
+    Inv g -> nth_error (thr g) i = Some t -> shape ss' -> LI t' ->
+    (val (nth 0 ss' dsem) + (sumz t_hl (thr g) - t_hl t + t_hl t') = 1 /\
+    0 <= val (nth 0 ss' dsem) /\
+    val (nth 1 ss' dsem) - val (nth 2 ss' dsem) + (sumz t_pend (thr g) - t_pend t + t_pend t')
+      = sumz t_win (thr g) - t_win t + t_win t' /\
+    0 <= val (nth 1 ss' dsem) /\ 0 <= val (nth 2 ss' dsem) /\
+    0 <= val (nth 3 ss' dsem) <= sumz t_ntok (thr g) - t_ntok t + t_ntok t' /\
+    (0 <= val (nth 4 ss' dsem) /\ val (nth 4 ss' dsem) + (sumz t_fh (thr g) - t_fh t + t_fh t') <= 1) /\
+    (0 < sumz t_sz (thr g) - t_sz t + t_sz t' -> val (nth 1 ss' dsem) = 0)) ->
+    Inv (mkS ss' (upd (thr g) i t')).
+Proof.
+  intros g i t t' ss' HI Ht Hsh Hli (H1 & H2 & H3 & H4 & H5 & H6 & H7 & H8).
+  eapply inv_upd; eauto.
+Qed.
+
+(* ------------------------------------------------------------------ event flag and call results *)
+Definition aflag (g : sys) : Z := vv 4 g + sumz t_fh (thr g).
+
+Definition at_ (t : thread) (c p : nat) : bool :=
+  negb (fin t) && Nat.eqb (cid t) c && Nat.eqb (pc t) p.
+
+Local Open Scope nat_scope.
+(* the value the call in progress is going to return, once that is decided *)
+Definition pending (t : thread) : option Z :=
+  if fin t then None else
+  match cid t, pc t with
+  | 0, (10|13|17) => Some (r2 (rg t))
+  | 3, (3|4) => Some 1%Z
+  | 3, 7 => Some 0%Z
+  | 6, (23|24) => Some 1%Z
+  | 6, 27 => Some 0%Z
+  | _, _ => None
+  end.
+Local Close Scope nat_scope.
+
+Definition thread_at (g : sys) (i : nat) : thread :=
+  nth i (thr g) (mkT dcall 0 (init_regs 0 0) [] [] [] true).
+
+(* how one step changes the abstract flag, and what the reads of the flag return *)
+Definition flag_spec (i : nat) (t : thread) (g g' : sys) (e : event) : Prop :=
+  aflag g' = (if at_ t 4 1 then 1 else if at_ t 5 1 then 0 else aflag g) /\
+  (at_ t 3 1 || at_ t 6 1 || at_ t 6 21 = true -> e = (i, 4%nat, 0, aflag g)) /\
+  (at_ t 3 1 || at_ t 6 21 = true -> pending (thread_at g' i) = Some (aflag g)) /\
+  (at_ t 0 9 = true -> pending (thread_at g' i) = Some (snd e)).
+
+(* a decided result stays decided and is what the call returns *)
+Definition res_spec (t t' : thread) : Prop :=
+  match pending t with
+  | Some v => (fin t' = false /\ cur t' = cur t /\ script t' = script t /\ results t' = results t /\ pending t' = Some v)
+              \/ results t' = (cur t, v) :: results t
+  | None => True
+  end.
+
+Lemma thread_at_upd : forall g ss i t t', nth_error (thr g) i = Some t ->
+    thread_at (mkS ss (upd (thr g) i t')) i = t'.
+Proof.
+  intros g ss i t t' Ht. unfold thread_at; cbn [thr].
+  apply nth_error_nth. eapply nth_error_upd_same; eauto.
+Qed.
+
+Lemma pending_start : forall sc h res, Forall okcall sc -> pending (start code h res sc) = None.
+Proof.
+  intros [|[[c a0] a1] sc] h res Hs; [reflexivity|].
+  inversion Hs as [|x l Hc Hs']; subst. unfold okcall in Hc; cbn in Hc.
+  rewrite start_cons by auto. unfold pending, cid; cbn [fin cur fst pc].
+  dn c 15%nat; reflexivity.
+Qed.
+
+Lemma results_start : forall sc h res, Forall okcall sc -> results (start code h res sc) = res.
+Proof.
+  intros [|[[c a0] a1] sc] h res Hs; [reflexivity|].
+  inversion Hs as [|x l Hc Hs']; subst. unfold okcall in Hc; cbn in Hc.
+  rewrite start_cons by auto. reflexivity.
+Qed.
+
 Ltac simpw :=
   cbn [t_hl t_win t_pend t_ntok t_fh t_sz w_hl w_win w_pend w_ntok w_fh w_sz
        r0 r1 r2 r3 r4 r5 r6 r7 rg cur pc held script results fin cid fst snd val set_val maxv recur] in *.
@@ -292,6 +370,7 @@ Ltac fin_if :=
 Ltac split_all := repeat match goal with H : _ /\ _ |- _ => destruct H end.
 
 
+
 Ltac destr_H H :=
   repeat match type of H with
          | context [if ?b then _ else _] => destruct b eqn:?
@@ -304,7 +383,7 @@ Ltac norm_held :=
 
 Ltac solve_start Hsc Hrs :=
   match goal with
-  | |- Inv {| sems := ?ss; thr := upd _ _ (start code ?h' ?res' ?sc') |} =>
+  | |- context [start code ?h' ?res' ?sc'] =>
       let SF := fresh "SF" in
       assert (SF : LI (start code h' res' sc') /\ t_hl (start code h' res' sc') = 0 /\
                    t_win (start code h' res' sc') = 0 /\ t_pend (start code h' res' sc') = 0 /\
@@ -318,21 +397,37 @@ Ltac solve_start Hsc Hrs :=
   end.
 
 Ltac finish_inv HI Ht :=
-  eapply (inv_upd _ _ _ _ _ HI Ht);
+  eapply (inv_upd2 _ _ _ _ _ HI Ht);
   [ first [ exact (i_shape _ HI) | apply shape_upds; [exact (i_shape _ HI) | reflexivity | reflexivity] ]
   | first [ assumption | unfold LI; simp; cbn [li_pc]; unfold res2; simp; norm_held; repeat split; auto; try lia ]
-  | .. ];
-  rewrite ?nth_upds_same, ?nth_upds_other by discriminate; simpw;
-  try match goal with SF1 : t_hl (start _ _ _ _) = 0 |- _ => idtac end;
-  repeat match goal with E : _ (start code _ _ _) = 0 |- _ => rewrite ?E; clear E end;
-  try lia.
+  | rewrite ?nth_upds_same, ?nth_upds_other by discriminate;
+    cbn [t_hl t_win t_pend t_ntok t_fh t_sz w_hl w_win w_pend w_ntok w_fh w_sz
+         r0 r1 r2 r3 r4 r5 r6 r7 rg cur pc held script results fin cid fst snd val set_val maxv recur];
+    repeat match goal with E : _ (start code _ _ _) = 0 |- _ => rewrite ?E end;
+    lia ].
 
+Ltac finish_fs Ht Hsc :=
+  unfold flag_spec, res_spec, aflag, vv; cbn [sems thr];
+  rewrite (thread_at_upd _ _ _ _ _ Ht);
+  rewrite (sumz_upd _ t_fh _ _ _ _ Ht);
+  rewrite ?nth_upds_same, ?nth_upds_other by discriminate;
+  rewrite ?(pending_start _ _ _ Hsc), ?(results_start _ _ _ Hsc);
+  repeat match goal with E : t_fh (start code _ _ _) = 0 |- _ => rewrite ?E end;
+  unfold at_, pending; simpw; cbn [Nat.eqb andb negb orb];
+  repeat split; intros; try discriminate; try lia; auto;
+  try (repeat f_equal; lia);
+  try solve [left; repeat split; reflexivity | right; reflexivity].
 
-Lemma inv_step : forall g i go g' e, Inv g -> small g -> step code g i go = Some (g', e) -> Inv g'.
+(* THE step lemma: the invariant is inductive (so no assertion of notify / notify_all can
+   fail and no semaphore operation of Condition / Event raises), the abstract event flag
+   changes only at set / clear, reads return it, decided results are returned. *)
+
+Lemma step_spec : forall g i go g' e t, Inv g -> small g -> nth_error (thr g) i = Some t ->
+    step code g i go = Some (g', e) ->
+    Inv g' /\ flag_spec i t g g' e /\ res_spec t (thread_at g' i).
 Proof.
-  intros g i go g' e HI Hsm H.
-  unfold step in H.
-  destruct (nth_error (thr g) i) as [t|] eqn:Ht; [|discriminate].
+  intros g i go g' e t HI Hsm Ht H.
+  unfold step in H. rewrite Ht in H.
   destruct (fin t) eqn:Hf; [discriminate|].
   pose proof (i_li g HI t (nth_error_In _ _ Ht)) as Hli.
   destruct (i_shape g HI) as [HmL H14].
@@ -362,9 +457,170 @@ Proof.
   all: simp_in H; unfold sem_acq, sem_rel in H;
     rewrite ?Hr1, ?Hr2, ?Hr3, ?Hr4, ?Hm1, ?Hm2, ?Hm3, ?Hm4, ?HmL in H; cbn [andb] in H;
     destr_H H; try discriminate.
+  all: clear Hr1 Hr2 Hr3 Hr4 Hm1 Hm2 Hm3 Hm4 HmL H14.
   all: try (exfalso; lia).
   all: inversion H; subst g' e; clear H.
   all: unfold advance, abort; simp; norm_held; fin_if.
   all: try solve_start Hsc Hrs.
-  all: try solve [finish_inv HI Ht].
+
+
+  all: (split; [solve [finish_inv HI Ht] | ]).
+  all: solve [finish_fs Ht Hsc].
+Qed.
+
+Lemma inv_step : forall g i go g' e, Inv g -> small g -> step code g i go = Some (g', e) -> Inv g'.
+Proof.
+  intros g i go g' e HI Hsm H.
+  destruct (nth_error (thr g) i) as [t|] eqn:Ht.
+  - exact (proj1 (step_spec g i go g' e t HI Hsm Ht H)).
+  - unfold step in H. rewrite Ht in H. discriminate.
+Qed.
+
+Fixpoint run_small (g : sys) (sched : list (nat * bool)) : Prop :=
+  small g /\
+  match sched with
+  | [] => True
+  | (i, go) :: r => match step code g i go with Some (g1, _) => run_small g1 r | None => True end
+  end.
+
+Lemma inv_run : forall sched g g' es ok,
+    Inv g -> run_small g sched -> run code g sched = (g', es, ok) -> Inv g'.
+Proof.
+  induction sched as [|[i go] sched IH]; intros g g' es ok HI Hs H; cbn [run] in H.
+  - inversion H; subst; auto.
+  - cbn [run_small] in Hs. destruct Hs as [Hsm Hs].
+    destruct (step code g i go) as [[g1 e]|] eqn:Es.
+    + destruct (run code g1 sched) as [[g2 es2] ok2] eqn:Er. inversion H; subst.
+      apply (IH g1 g' es2 ok); auto. eapply inv_step; eauto.
+    + inversion H; subst; auto.
+Qed.
+
+Lemma inv_init : forall lockrec k scripts,
+    Forall (Forall okcall) scripts -> Inv (init lockrec k scripts).
+Proof.
+  intros lockrec k scripts Hs. unfold init, init_sys.
+  assert (Hall : forall t, In t (map (start code [] []) scripts) ->
+                 LI t /\ t_hl t = 0 /\ t_win t = 0 /\ t_pend t = 0 /\ t_ntok t = 0 /\ t_fh t = 0 /\ t_sz t = 0).
+  { intros t Ht. apply in_map_iff in Ht. destruct Ht as [sc [E Hin]]. subst t.
+    apply start_facts; auto. rewrite Forall_forall in Hs. auto. }
+  constructor; unfold vv; cbn [sems thr].
+  - unfold shape, world. split; [destruct lockrec; reflexivity|].
+    intros s Hs'. assert (s = 1 \/ s = 2 \/ s = 3 \/ s = 4)%nat as [E|[E|[E|E]]] by lia; subst s;
+      destruct lockrec; split; reflexivity.
+  - intros t Ht. apply (Hall t Ht).
+  - rewrite sumz_zero by (intros t Ht; apply (Hall t Ht)). destruct lockrec; reflexivity.
+  - destruct lockrec; cbn; lia.
+  - rewrite !sumz_zero by (intros t Ht; apply (Hall t Ht)). destruct lockrec; reflexivity.
+  - destruct lockrec; cbn; lia.
+  - destruct lockrec; cbn; lia.
+  - rewrite sumz_zero by (intros t Ht; apply (Hall t Ht)). destruct lockrec; cbn; lia.
+  - rewrite sumz_zero by (intros t Ht; apply (Hall t Ht)). destruct lockrec; cbn; lia.
+  - rewrite sumz_zero by (intros t Ht; apply (Hall t Ht)). lia.
+Qed.
+
+(* ------------------------------------------------------------------ consequences of the invariant *)
+Lemma li_held_hl : forall t, LI t -> 0 < nth 0 (held t) 0 -> t_hl t = 1.
+Proof.
+  intros [[[c a0] a1] p r h sc rs f] (_ & _ & Hl). unfold t_hl, cid in *.
+  cbn [fin cur fst snd pc rg held] in *. destruct f; [intros; lia|].
+  destruct Hl as [_ Hp]. dn c 15%nat; dn p 28%nat; cbn in Hp |- *; try contradiction; intros; lia.
+Qed.
+
+Lemma li_hl_held : forall t, LI t -> t_hl t = 1 -> nth 0 (held t) 0 = 1.
+Proof.
+  intros [[[c a0] a1] p r h sc rs f] (_ & _ & Hl). unfold t_hl, cid in *.
+  cbn [fin cur fst snd pc rg held] in *. destruct f; [intros; lia|].
+  destruct Hl as [_ Hp]. dn c 15%nat; dn p 28%nat; cbn in Hp |- *; try contradiction; intros; lia.
+Qed.
+
+Lemma sumz_zero_all : forall A (f : A -> Z) l, (forall x, In x l -> 0 <= f x) -> sumz f l = 0 ->
+    forall x, In x l -> f x = 0.
+Proof.
+  intros A f l Hnn Hs x Hx. apply In_nth_error in Hx. destruct Hx as [n Hn].
+  pose proof (sumz_ge_elem _ f l n x Hnn Hn). pose proof (Hnn x (nth_error_In _ _ Hn)). lia.
+Qed.
+
+(* mutual exclusion of the condition's lock (Lock or RLock) *)
+Theorem cond_mutex : forall g i j ti tj, Inv g ->
+    nth_error (thr g) i = Some ti -> nth_error (thr g) j = Some tj ->
+    0 < nth 0 (held ti) 0 -> 0 < nth 0 (held tj) 0 -> i = j.
+Proof.
+  intros g i j ti tj HI Hi Hj Hpi Hpj.
+  pose proof (li_held_hl ti (i_li g HI ti (nth_error_In _ _ Hi)) Hpi).
+  pose proof (li_held_hl tj (i_li g HI tj (nth_error_In _ _ Hj)) Hpj).
+  destruct (Nat.eq_dec i j) as [E|E]; [auto|exfalso].
+  pose proof (sumz_two _ t_hl (thr g) i j ti tj (fun x _ => proj1 (t_hl_01 x)) Hi Hj E).
+  pose proof (i_lock g HI). pose proof (i_lock0 g HI). lia.
+Qed.
+
+(* the counting invariant *)
+Definition quiet (g : sys) : Prop := forall t, In t (thr g) -> t_pend t = 0 /\ t_ntok t = 0.
+
+Theorem cond_counts : forall g, Inv g ->
+    vv 1 g - vv 2 g + sumz t_pend (thr g) = sumz t_win (thr g) /\
+    0 <= vv 3 g <= sumz t_ntok (thr g) /\
+    (quiet g -> vv 3 g = 0 /\ vv 1 g - vv 2 g = sumz t_win (thr g)).
+Proof.
+  intros g HI. pose proof (i_count g HI). pose proof (i_tok g HI). repeat split; try lia.
+  - rewrite (sumz_zero _ t_ntok) in H0; [lia|]. intros t Ht. apply (H1 t Ht).
+  - rewrite (sumz_zero _ t_pend) in H; [lia|]. intros t Ht. apply (H1 t Ht).
+Qed.
+
+(* when the lock is free no notify is in progress *)
+Theorem lock_free_quiet : forall g, Inv g -> vv 0 g = 1 -> quiet g.
+Proof.
+  intros g HI HL t Ht. pose proof (i_lock g HI).
+  assert (t_hl t = 0).
+  { apply (sumz_zero_all _ t_hl (thr g)); auto; [intros; apply t_hl_01|lia]. }
+  destruct (t_excl t ltac:(lia)) as (A & B & _). auto.
+Qed.
+
+(* results of all finished calls: no exception in any Condition/Event method, an untimed
+   wait returned True, a timed one a boolean *)
+Theorem cond_results : forall g t, Inv g -> In t (thr g) -> Forall okres (results t).
+Proof. intros g t HI Ht. destruct (i_li g HI t Ht) as (_ & A & _). exact A. Qed.
+
+(* notify_all past its acknowledgement loop: nobody is left in the wait window *)
+Definition nall_done (t : thread) : Prop :=
+  fin t = false /\
+  ((cid t = 2%nat /\ (pc t = 21%nat \/ pc t = 24%nat)) \/ (cid t = 4%nat /\ (pc t = 23%nat \/ pc t = 26%nat))).
+
+Theorem notify_all_wakes : forall g i t, Inv g -> nth_error (thr g) i = Some t -> nall_done t ->
+    (forall u, In u (thr g) -> t_win u = 0) /\ vv 1 g = 0 /\ vv 2 g = 0.
+Proof.
+  intros g i t HI Ht [Hf Hd].
+  assert (Hz : t_sz t = 1 /\ t_hl t = 1 /\ t_pend t = 0).
+  { unfold t_sz, t_hl, t_pend. rewrite Hf. destruct Hd as [[Hc [Hp|Hp]]|[Hc [Hp|Hp]]]; rewrite Hc, Hp; cbn; auto. }
+  destruct Hz as (Hsz & Hhl & Hpe).
+  assert (Hs : sumz t_pend (thr g) = t_pend t).
+  { eapply (sumz_excl _ t_hl); eauto; try (intros; apply t_hl_01); try lia.
+    - intros x Hx; apply (t_excl x Hx).
+    - pose proof (i_lock g HI). pose proof (i_lock0 g HI). lia. }
+  assert (Hs1 : vv 1 g = 0).
+  { apply (i_sz g HI). pose proof (sumz_ge_elem _ t_sz (thr g) i t (fun x _ => proj1 (t_sz_01 x)) Ht). lia. }
+  pose proof (i_count g HI). pose proof (i_w0 g HI).
+  assert (Hw : 0 <= sumz t_win (thr g)) by (apply sumz_nonneg; intros; apply t_win_01).
+  repeat split; try lia.
+  apply (sumz_zero_all _ t_win (thr g)); [intros; apply t_win_01|lia].
+Qed.
+
+(* notify: at most one token; if no other sleeper is counted when the acknowledgement
+   has been collected, nobody is left in the wait window *)
+Theorem notify_one : forall g i t, Inv g -> nth_error (thr g) i = Some t ->
+    fin t = false -> cid t = 1%nat -> t_hl t = 1 ->
+    vv 3 g <= 1 /\
+    ((pc t = 13%nat \/ pc t = 14%nat) -> vv 1 g = 0 -> forall u, In u (thr g) -> t_win u = 0).
+Proof.
+  intros g i t HI Ht Hf Hc Hhl.
+  assert (Hex : sumz t_pend (thr g) = t_pend t /\ sumz t_ntok (thr g) = t_ntok t).
+  { split; eapply (sumz_excl _ t_hl); eauto; try (intros; apply t_hl_01); try lia;
+      try (intros x Hx; apply (t_excl x Hx)); pose proof (i_lock g HI); pose proof (i_lock0 g HI); lia. }
+  destruct Hex as [Hp Hn]. pose proof (i_tok g HI) as Htok. split.
+  - rewrite Hn in Htok. unfold t_ntok in Htok. rewrite Hf, Hc in Htok.
+    assert (w_ntok 1 (pc t) (rg t) <= 1) by (generalize (pc t); intro p; dn p 28%nat; cbn; lia). lia.
+  - intros Hpc HS u Hu. pose proof (i_count g HI) as Hcnt. pose proof (i_w0 g HI).
+    assert (Hw : 0 <= sumz t_win (thr g)) by (apply sumz_nonneg; intros; apply t_win_01).
+    rewrite Hp in Hcnt. unfold t_pend in Hcnt. rewrite Hf, Hc in Hcnt.
+    assert (w_pend 1 (pc t) (rg t) = 0) by (destruct Hpc as [E|E]; rewrite E; reflexivity).
+    apply (sumz_zero_all _ t_win (thr g)); [intros; apply t_win_01|lia|auto].
 Qed.
